@@ -144,8 +144,8 @@ def s_int(optional, lo_valid=0):
 
 
 def s_name(required_str):
-    good = st.sampled_from(['n', '_x', 'Name1', 'a_b', 'k'])
-    bad = st.sampled_from([['str', ''], ['str', '1a'], ['str', 'a b'], ['str', 'a-b'], ['str', 'a\n'], ['str', 'é'],
+    good = st.sampled_from(['n', '_x', 'Name1', 'a_b', 'k', 'a\u00f1o', 'a\u0663', 'a_\uff11'])
+    bad = st.sampled_from([['str', ''], ['str', '1a'], ['str', 'a b'], ['str', 'a-b'], ['str', 'a\n'], ['str', 'é'], ['str', 'a\xb2'], ['str', 'a\u2460'], ['str', 'x\u0301'], ['str', 'a\u200d'], ['str', 'a\ufeff'],
                            ['str', 'aé'], ['int', 1], ['float', 1.0], ['list', []], ['bool', True]])
     opts = [good.map(lambda s: ['str', s])] * 3 + [bad]
     if not required_str:
